@@ -12,7 +12,12 @@ for d in sorted(glob.glob(V + "/seeded/*/")):
         ", ".join(m.get("rules_that_report_it", [])[:4]) + (" (" + "+".join(m.get("checks_that_report_it", [])) + ")"),
         m.get("history", "")))
 hist = json.load(open(V + "/seeded/HISTORY.json")) if os.path.exists(V + "/seeded/HISTORY.json") else {}
-txt = """Fresh sub-agents (one per property) were given only the property text and a
+metas = [json.load(open(d + "meta.json")) for d in sorted(glob.glob(V + "/seeded/C*-seed*/"))]
+own_now = sum(1 for m in metas if m.get("own_property_check_reports_it"))
+r1, r2 = hist.get("round1", {}), hist.get("round2", {})
+missed2 = r2.get("own_check_missed_at_first_evaluation", [])
+still = r2.get("still_missed_by_own_check", {})
+txt = """Fresh sub-agents (one per property and round) were given only the property text and a
 scratch git worktree of /repo - nothing from /verif - and asked for changes
 that break the property, compile, pass the whole pinned suite and need
 something specific to manifest, each with a demonstration. Every seed below
@@ -20,25 +25,44 @@ was confirmed by us in a scratch worktree (`tools/confirm_seed.py`: demo passes
 without the change; with it the tree builds, the pinned suite passes, the demo
 fails) and evaluated with `tools/eval_seed.sh` (apply to /repo, run every
 check, `git checkout -- .`). Each is stored as `seeded/<id>/{patch.diff,
-demo_test.go.txt | demo/, meta.json}`.
+demo_test.go.txt | demo/, meta.json}`; `tools/refresh_seeds.py` re-evaluates
+all of them against the current checks and rewrites the "rules" column.
 
-%d seeds, 3 per property. **First evaluation (before any strengthening): the
-property's own check reported %d of %d; %d were reported by no check at all.**
-The misses were analysed, a *necessary-condition* rule was added for each
-(never a special case of the seed) and all %d are now reported by their own
-property's check. Column "rules" lists what reports the seed today; "history"
-says whether a rule had to be added.
+%d seeds in two rounds of 60 (3 per property and round).
 
-Honest reading: roughly a third of the detections are by *restructuring* -
+* **Round 1, first evaluation (before any strengthening): the property's own
+  check reported %d of 60; %d were reported by no check at all.** A
+  *necessary-condition* rule was added for each miss (never a special case of
+  the seed); afterwards all 60 were reported by their own check.
+* **Round 2** (new agents, told which round-1 changes were "already taken" and
+  to think about 32-bit builds, the debug tag, integer width, aliasing and
+  state between calls) measured the strengthened checks out of sample:
+  **%d of 60 were missed by their own property's check at first evaluation**
+  (%s); two of those were reported by another property's check. The misses
+  fall into four classes, each answered by one generic rule: state kept
+  between calls (R-STATELESS on every anchored function), 64-bit words routed
+  through int/uint (R-WORDWIDTH, R-TABLEWIDTH, R-CONSTWIDTH - decided from the
+  types, so the amd64 quick tier reports a 386-only defect), positions
+  narrowed below their source width (R-IDXWIDTH, narrowing clause of
+  R-RANKWORD), results aliasing inputs or tables (R-RESULT-FRESH in C19,
+  R-TABLE-PRIVATE in C05).
+* **Today the property's own check reports %d of %d.** Not reported: %s.
+  Both lie in clauses C03 declares undecided (numeric closed forms; whether a
+  debug contract is implied by validity); no sound structural rule was found
+  and none was faked.
+
+Honest reading: a good third of the detections are by *restructuring* -
 the seed replaced a loop or an expression by a different construct and a
 pattern rule no longer recognised the idiom (e.g. C07-seed1/2, C06-seed1,
-C01-seed2/3, C08-seed1..3, C14-seed1/2). Such a report names the construct
-correctly but would also be raised for a *correct* rewrite of the same shape;
-see the blue-team measurements at the end of this section.
+C01-seed2/3, C08-seed1..3, C14-seed1/2, C02-seed4, C14-seed6). Such a report
+names the construct correctly but would also be raised for a *correct* rewrite
+of the same shape; section 7.1 measures exactly that.
 
 | seed | change | needs | rules (checks) | history |
 |---|---|---|---|---|
-""" % (len(rows), hist.get("own_first", 0), len(rows), hist.get("none_first", 0), len(rows)) + "\n".join(rows) + "\n"
+""" % (len(rows), r1.get("own_check_reported_at_first_evaluation", 0), r1.get("no_check_reported_at_first_evaluation", 0),
+       len(missed2), ", ".join(missed2), own_now, len(rows),
+       "; ".join("%s" % k for k in still)) + "\n".join(rows) + "\n"
 s = open(V + "/DESIGN.md").read()
 if "SEEDED_TABLE_PLACEHOLDER" in s:
     s = s.replace("SEEDED_TABLE_PLACEHOLDER", "<!-- seeded:begin -->\n" + txt + "<!-- seeded:end -->")
